@@ -716,7 +716,7 @@ func famSignatures(t *tgen) {
 		}
 		if recv {
 			// mostly fresh names; sometimes one that another parameter, a default name or the error result uses
-			sb.WriteString("\t// :recv " + t.pick("r", "x", "self", "r", "x", "self", "a0", "a1", "err", "dst", "src", "out", "d", "arg0") + "\n")
+			sb.WriteString("\t// :recv " + t.pick("r", "x", "self", "r", "x", "self", "a0", "a1", "err", "dst", "src", "out", "d", "arg0", "u_ser", "_x1", "_") + "\n")
 		}
 		if rev {
 			sb.WriteString("\t// :reverse\n")
@@ -726,7 +726,7 @@ func famSignatures(t *tgen) {
 		params := []string{}
 		p0 := sp + srcT
 		if named {
-			p0 = t.pick("in", "s", "from") + " " + p0
+			p0 = t.pick("in", "s", "from", "_") + " " + p0
 		}
 		params = append(params, p0)
 		for i := 0; i < nargs; i++ {
@@ -734,7 +734,7 @@ func famSignatures(t *tgen) {
 			if named {
 				an := fmt.Sprintf("a%d", i)
 				if t.ch(0.12) {
-					an = t.pick("err", "dst", "src", "in", "s", "out", "d", "a0", "_")
+					an = t.pick("err", "dst", "src", "in", "s", "out", "d", "a0", "_", "_", "_")
 				}
 				at = an + " " + at
 			}
@@ -742,7 +742,7 @@ func famSignatures(t *tgen) {
 		}
 		res := dp + dstT
 		if named {
-			res = "(" + t.pick("out", "d", "to") + " " + res
+			res = "(" + t.pick("out", "d", "to", "_") + " " + res
 			if withErr {
 				res += ", err error"
 			}
@@ -1124,7 +1124,7 @@ func famImportNames(t *tgen) {
 	shapes := [][2]string{{"go-foo", "foo"}, {"bar/v2", "bar"}, {"plain", "plain"}, {"x.y", "xy"}, {"store", "storage"}}
 	sh := shapes[t.r.Intn(len(shapes))]
 	dir, pname := sh[0], sh[1]
-	ext := fmt.Sprintf("package %s\n\ntype Status int\ntype Code string\ntype M struct {\n\tID int\n\tSt Status\n\tCo Code\n\tTags []Status\n}\n\nfunc Fill(d *M, s *M) {}\nfunc ToCode(s string) Code { return Code(s) }\n", pname)
+	ext := fmt.Sprintf("package %s\n\ntype Status int\ntype Code string\ntype M struct {\n\tID int\n\tSt Status\n\tCo Code\n\tTags []Status\n}\n\nfunc Fill(d *M, s *M) {}\nfunc fill(d *M, s *M) {}\nfunc ToCode(s string) Code { return Code(s) }\nfunc toCode(s string) Code { return Code(s) }\n", pname)
 	local := fmt.Sprintf("package %s\n\ntype L struct {\n\tID int\n\tSt int\n\tCo string\n\tTags []int\n}\n", t.name)
 	dot := t.ch(0.2)
 	shadow := !dot && t.ch(0.5)
@@ -1159,10 +1159,11 @@ func famImportNames(t *tgen) {
 			}
 		}
 		if t.ch(0.3) {
-			fmt.Fprintf(&sb, "\t// :conv %sToCode Co Co\n", q)
+			// sometimes the unexported twin, which the setup file's package cannot refer to
+			fmt.Fprintf(&sb, "\t// :conv %s%s Co Co\n", q, t.pick("ToCode", "ToCode", "ToCode", "toCode"))
 		}
 		if t.ch(0.3) {
-			fmt.Fprintf(&sb, "\t// :postprocess %sFill\n\tBoth%d(*%sM) *%sM\n", q, j, q, q)
+			fmt.Fprintf(&sb, "\t// :postprocess %s%s\n\tBoth%d(*%sM) *%sM\n", q, t.pick("Fill", "Fill", "Fill", "fill"), j, q, q)
 			continue
 		}
 		if t.ch(0.5) {
